@@ -46,7 +46,7 @@ func TestNoHiddenNondeterminismInSimrt(t *testing.T) {
 			ast.Inspect(fd, func(n ast.Node) bool {
 				switch x := n.(type) {
 				case *ast.RangeStmt:
-					if _, isMap := info.TypeOf(x.X).Underlying().(*types.Map); isMap && fd.Name.Name != "MapKeys" {
+					if _, isMap := info.TypeOf(x.X).Underlying().(*types.Map); isMap && fd.Name.Name != "MapKeys" && fd.Name.Name != "MapKeysAny" { // both erase the native order by sorting
 						t.Errorf("%s: range over a map in %s", fset.Position(x.Pos()), fd.Name.Name)
 					}
 				case *ast.SelectorExpr:
